@@ -58,3 +58,52 @@ def replay_helper(sp):
     return dict(confirmed=bool(err > 1e-9 * max(1.0, float(np.max(np.abs(req))))), observed=got.tolist(), required=req.tolist(),
                 inputs=dict(A=a_.tolist(), B=b_.tolist(), u=u_.tolist(), v=v_.tolist()),
                 oracle="helper '%s' (%s variant) on the real code vs independent NumPy definition" % (name, variant))
+
+
+def replay_quadrature(sp):
+    """Evaluate the clause on the real getter with exact rationals."""
+    from fractions import Fraction
+    from math import factorial
+    import skfem.quadrature as Q
+    from skfem import refdom as R
+    cell, n, cl = sp["cell"], sp["n"], sp["clause"]
+    get = {"tri": lambda: Q.get_quadrature_tri(n), "tet": lambda: Q.get_quadrature_tet(n), "line": lambda: Q.get_quadrature_line(n),
+           "quad": lambda: Q.get_quadrature(R.RefQuad, n), "hex": lambda: Q.get_quadrature(R.RefHex, n),
+           "wedge": lambda: Q.get_quadrature(R.RefWedge, n)}[cell]
+    try:
+        X, W = get()
+    except NotImplementedError as e:
+        return dict(confirmed=(cl != "raises"), observed="NotImplementedError: %s" % e, required="a rule" if cl != "raises" else "raise")
+    if cl == "raises":
+        return dict(confirmed=True, observed="returned a %d-point rule for order %d" % (len(W), n), required="NotImplementedError",
+                    input=dict(cell=cell, order=n))
+    Xf = [[Fraction(float(v)) for v in row] for row in np.asarray(X, dtype=float)]
+    Wf = [Fraction(float(v)) for v in W]
+    d = len(Xf)
+    if cl == "moment":
+        e = sp["exps"]
+        got = sum(Wf[q] * np.prod([Xf[k][q] ** e[k] for k in range(d)]) for q in range(len(Wf)))
+        if cell in ("tri", "tet", "line"):
+            req = Fraction(int(np.prod([factorial(a) for a in e])), factorial(sum(e) + d))
+        elif cell == "wedge":
+            req = Fraction(factorial(e[0]) * factorial(e[1]), factorial(e[0] + e[1] + 2)) / (e[2] + 1)
+        else:
+            req = Fraction(1)
+            for a in e:
+                req /= (a + 1)
+        return dict(confirmed=bool(abs(got - req) > Fraction(1, 10 ** 13)), observed=float(got), required=float(req),
+                    input=dict(cell=cell, order=n, monomial=e), oracle="exact rational moment of the rule returned by the real getter")
+    if cl == "inside":
+        if cell in ("tri", "tet"):
+            bad = [q for q in range(len(Wf)) if min(Xf[k][q] for k in range(d)) < 0 or sum(Xf[k][q] for k in range(d)) > 1]
+        elif cell == "wedge":
+            bad = [q for q in range(len(Wf)) if min(Xf[k][q] for k in range(3)) < 0 or Xf[0][q] + Xf[1][q] > 1 or Xf[2][q] > 1]
+        else:
+            bad = [q for q in range(len(Wf)) if any(not (0 <= Xf[k][q] <= 1) for k in range(d))]
+        return dict(confirmed=bool(bad), observed="nodes outside: %s" % [[float(Xf[k][q]) for k in range(d)] for q in bad[:3]], required="all nodes in the closed cell",
+                    input=dict(cell=cell, order=n))
+    if cl in ("count", "pairing"):
+        n1 = len(Q.get_quadrature_line(n)[1])
+        want = n1 ** d if cell != "wedge" else n1 * len(Q.get_quadrature_tri(n)[1])
+        return dict(confirmed=bool(len(Wf) != want) if cl == "count" else None, observed=len(Wf), required=want, input=dict(cell=cell, order=n))
+    return dict(confirmed=None)
